@@ -44,10 +44,10 @@ func knownNonNilAt(at ssa.Instruction, v ssa.Value) bool {
 }
 
 func runC06(c *engine.Ctx) {
-	r1 := c.Rule("R1", "a queued pause status always comes with a non-nil transaction error, which reaches the traversal loop's exit; no load follows", 4)
+	r1 := c.Rule("R1", "a queued pause status always comes with a non-nil transaction error, which reaches the traversal loop's exit; no load follows", 2)
 	r1b := c.Rule("R1b", "a response paused at creation is not queued", 1)
 	r2 := c.Rule("R2", "requestor pause: cancel message to the request's peer and loader offline before the task is released", 1)
-	r3 := c.Rule("R3", "unpause only from Paused; re-queue with state and queue together", 2)
+	r3 := c.Rule("R3", "unpause only from Paused; re-queue with state and queue together", 1)
 
 	qe := "responsemanager/queryexecutor"
 	n := 0
@@ -124,6 +124,53 @@ func runC06(c *engine.Ctx) {
 	}
 	if n == 0 {
 		c.AnchorMissing(r1, "a PauseRequest call in the query executor")
+	}
+	// callers of a function that may have queued a pause must hand its error on: every return reachable
+	// after the call returns that error, a provably non-nil error, or is under "callee error == nil"
+	pausers := map[*ssa.Function]bool{}
+	for _, f := range c.P.FuncsIn(qe) {
+		for _, ci := range engine.Calls(f) {
+			if ci.Common.IsInvoke() && ci.Common.Method.Name() == "PauseRequest" && f.Signature.Results().Len() > 0 && isErrorType(f.Signature.Results().At(f.Signature.Results().Len()-1).Type()) {
+				pausers[f] = true
+			}
+		}
+	}
+	for _, f := range c.P.FuncsIn(qe) {
+		for _, ci := range engine.Calls(f) {
+			if ci.Static == nil || !pausers[ci.Static] || ci.Static == f {
+				continue
+			}
+			call := ci.Value()
+			if call == nil {
+				continue
+			}
+			var errv ssa.Value = call
+			if call.Type() != nil {
+				if tup, ok := call.Type().(*types.Tuple); ok {
+					errv = extractOf(call, tup.Len()-1)
+				}
+			}
+			bad := ""
+			for _, r := range engine.Returns(f) {
+				if !reachableFromAvoiding(call, r, func(ssa.Instruction) bool { return false }, nil) {
+					continue
+				}
+				v := engine.ReturnValue(r, len(r.Results)-1)
+				if errv != nil && engine.LocalValue(v) == engine.LocalValue(errv) {
+					continue
+				}
+				if errv != nil && engine.KnownNil(engine.InstrConds(r), errv) {
+					continue
+				}
+				if !engine.IsNilConst(v) && (provablyNonNilError(v, r) || knownNonNilAt(r, v)) {
+					continue
+				}
+				bad = "can return at " + c.P.Pos(r.Pos()) + " without handing on the error of " + engine.FuncName(ci.Static) + " (which may have queued a pause status)"
+			}
+			c.Decide(r1, engine.FuncName(f)+"|hands-on-pause-error", ci.Instr.Pos(), bad == "",
+				"after a callee that may have queued a pause status, every return hands its error on (or a non-nil one)",
+				"the transaction "+bad+": the response is reported paused but the traversal keeps sending blocks")
+		}
 	}
 	// Transaction returns the closure's error
 	tr := c.P.Func("responsemanager/responseassembler", "responseStream", "Transaction")
